@@ -717,6 +717,14 @@ func processFuncProvider(fset *token.FileSet, fn *types.Func) (*Provider, []erro
 }
 
 func injectorFuncSignature(sig *types.Signature) (*types.Tuple, outputSignature, error) {
+	// The generated injector is a plain function: it could not stand in for
+	// a method or for a function with type parameters.
+	if sig.Recv() != nil {
+		return nil, outputSignature{}, errors.New("injector must be a function, not a method")
+	}
+	if sig.TypeParams().Len() > 0 {
+		return nil, outputSignature{}, errors.New("injector must not have type parameters")
+	}
 	out, err := funcOutput(sig)
 	if err != nil {
 		return nil, outputSignature{}, err
